@@ -71,7 +71,8 @@ def check(run):
         "Done/Close/expiry with the close cascade are one atomic spec action (layer part under layerCache.mu, blob part under blobCache.mu in the code)",
         "registry = in-memory remote.Handler; connectivity = fetcher epochs (BreakConn/Refresh); valid_interval 1 h, elapsed by the driver "
         "(Tick: lastCheck of every blob is moved into the past) instead of by waiting; directory caches with SyncAdd, "
-        "memory LRU of 1 chunk; metadata store = memory reader wrapped to observe Close; mkdir/Close errors not modelled",
+        "memory LRU of 1 chunk; metadata store = memory reader wrapped to observe Close and to make Close report an error (ArmCloseErr); "
+        "mkdir errors and errors of the cache directories' own Close not modelled",
         "open files are observed through /proc/self/fd (links below the resolver root)",
         "free-running traces are decided by the monitor only (local samples by the holder, complete projection at quiescent points)",
     ]
@@ -89,7 +90,7 @@ def check(run):
                                      name="Layer_mc.cfg 1 name 2 holders 3 resolves 1 failure"),
                   lambda: run.tlc_mc("Layer", "Layer_mc.cfg", {"NH": "2", "MaxR": "2", "MaxFault": "1", "MaxBreak": "1"}, workers=1, timeout=900,
                                      name="Layer_mc.cfg 1 name 2 holders 2 resolves 1 failure 1 break (check interval)"),
-                  lambda: run.tlc_mc("Layer", "Layer_mc.cfg", {"Names": AB, "NH": "2", "MaxR": "2", "MaxFault": "1", "MaxBreak": "0"}, workers=1, timeout=900,
+                  lambda: run.tlc_mc("Layer", "Layer_mc.cfg", {"Names": AB, "NH": "2", "MaxR": "2", "MaxFault": "0", "MaxBreak": "0"}, workers=1, timeout=900,
                                      name="Layer_mc.cfg 2 names 2 holders 2 resolves"),
                   lambda: run.tlc_mc("Layer", "Layer_mc.cfg", {"NH": "2", "MaxR": "2", "MaxFault": "1", "MaxBreak": "0", "TrackFiles": "TRUE"}, workers=1, timeout=900,
                                      name="Layer_mc.cfg files")])
@@ -99,9 +100,10 @@ def check(run):
         ("CloseWaitsForHolders", ["HeldLayerServes", "ReadWorks"]),
         ("LayerKeepsBlobRef", ["HeldLayerServes", "ReadWorks"]),
         ("CleanupOnFailure", ["FailedResolveLeaksNothing", "AllReleasedAndEvictedFreesEverything"]),
-        ("IdentityEvict", ["AllReleasedAndEvictedFreesEverything"]),
-        ("CloseReleasesBlob", ["AllReleasedAndEvictedFreesEverything"]),
-        ("StampOnlyOnSuccess", ["CheckNotFooled"]))]
+        ("IdentityEvict", ["AllReleasedAndEvictedFreesEverything", "UnusedBlobIsGone"]),
+        ("CloseReleasesBlob", ["AllReleasedAndEvictedFreesEverything", "UnusedBlobIsGone"]),
+        ("StampOnlyOnSuccess", ["CheckNotFooled"]),
+        ("BlobReleasedOnCloseError", ["UnusedBlobIsGone", "AllReleasedAndEvictedFreesEverything"]))]
     ctl.append((dict(small, TrackFiles="TRUE", CloseFiles="FALSE"), ["NoOpenFilesAfterClose"]))
     par(run, [] if skip_mc else [(lambda o=o, x=x: run.tlc_negctl("Layer", "Layer_mc.cfg", o, x, workers=1, drop=INTERNAL)) for o, x in ctl])
 
@@ -130,7 +132,7 @@ def check(run):
             st["sampled"] = True
         out = os.path.join(run.scratch, "replay_%s.ndjson" % name)
         jobs.append({"name": name, "ov": ov, "names": names_of(ov), "nh": int(ov["NH"]), "out": out,
-                     "walks": [[{k: s[k] for k in ("act", "h", "n", "arg")} for s in w] for w in walks]})
+                     "walks": [[{k: s[k] for k in ("act", "h", "n", "arg", "cb")} for s in w] for w in walks]})
         run.cov["stages"].append(dict(stage="edge-cover", graph=name, **st))
     inp = os.path.join(run.scratch, "walks.json")
     write_json(inp, jobs)
